@@ -284,6 +284,154 @@ def gen_pitch(ex: Extraction, kp):
 GENERATORS.append(gen_pitch)
 
 
+
+def _cat_name(node):
+    """TokenCategory.X -> 'X'"""
+    if isinstance(node, ast.Attribute) and isinstance(node.value, ast.Name) and node.value.id == 'TokenCategory':
+        return node.attr
+    return None
+
+
+def _simple_token_return(ret):
+    """`return SimpleToken(encoding, TokenCategory.X)` -> ('encoding', 'X')"""
+    if not isinstance(ret, ast.Return) or not isinstance(ret.value, ast.Call):
+        return None
+    c = ret.value
+    if not (isinstance(c.func, ast.Name) and c.func.id == 'SimpleToken' and len(c.args) == 2):
+        return None
+    a0 = c.args[0].id if isinstance(c.args[0], ast.Name) else None
+    return a0, _cat_name(c.args[1])
+
+
+def importer_record(ex, rel, cls):
+    """(accepted, negated, fallback_exc, fallback_any) of a wrapping spine importer, or ('delegate', Class)"""
+    t = parse(rel)
+    fn = find_def(t, cls, 'import_token')
+    ex.fingerprints[f'{rel.split("/")[-1][:-3]}.{cls}.import_token'] = fingerprint(fn)
+    if fn is None:
+        ex.problem(f'{cls}.import_token not found'); return None
+    arg = fn.args.args[1].arg
+    accepted = negated = fexc = fany = None
+    verbatim = True
+    kern_fresh = False
+    for n in ast.walk(fn):
+        if isinstance(n, ast.Assign) and any(isinstance(tg, ast.Name) and tg.id == 'ACCEPTED_CATEGORIES' for tg in n.targets):
+            if isinstance(n.value, ast.Set):
+                accepted = [_cat_name(e) for e in n.value.elts]
+        if isinstance(n, ast.Try):
+            for h in n.handlers:
+                for st in h.body:
+                    r = _simple_token_return(st)
+                    if r:
+                        verbatim &= (r[0] == arg); fexc = r[1]
+            for st in ast.walk(n):
+                if isinstance(st, ast.Call) and isinstance(st.func, ast.Name) and st.func.id == 'KernSpineImporter':
+                    kern_fresh = True
+        if isinstance(n, ast.If):
+            test = n.test
+            neg = False
+            if isinstance(test, ast.UnaryOp) and isinstance(test.op, ast.Not):
+                neg, test = True, test.operand
+            if isinstance(test, ast.Call) and isinstance(test.func, ast.Name) and test.func.id == 'any':
+                negated = neg
+                for st in n.body:
+                    r = _simple_token_return(st)
+                    if r:
+                        verbatim &= (r[0] == arg); fany = r[1]
+    if accepted is None and fexc is None:
+        # delegation: `x = Other(); return x.import_token(encoding)`
+        for n in ast.walk(fn):
+            if isinstance(n, ast.Assign) and isinstance(n.value, ast.Call) and isinstance(n.value.func, ast.Name) and n.value.func.id.endswith('SpineImporter'):
+                return ('delegate', n.value.func.id)
+        ex.problem(f'{cls}.import_token: neither the wrapping pattern nor a delegation was found'); return None
+    last = fn.body[-1]
+    returns_token = isinstance(last, ast.Return) and isinstance(last.value, ast.Name) and last.value.id == 'token'
+    if None in (accepted or [None]) or negated is None or fexc is None or fany is None or not verbatim or not kern_fresh or not returns_token:
+        ex.problem(f'{cls}.import_token: pattern incomplete (accepted={accepted}, negated={negated}, exc={fexc}, any={fany}, '
+                   f'verbatim={verbatim}, fresh_kern={kern_fresh}, returns_token={returns_token})')
+        return None
+    return ('wrap', accepted, negated, fexc, fany)
+
+
+def gen_importers(ex: Extraction, kp):
+    from kernpy.core import importer_factory as IF
+    files = {
+        'TextSpineImporter': 'kernpy/core/text_spine_importer.py', 'DynamSpineImporter': 'kernpy/core/dynam_spine_importer.py',
+        'DynSpineImporter': 'kernpy/core/dyn_importer.py', 'HarmSpineImporter': 'kernpy/core/harm_spine_importer.py',
+        'MxhmSpineImporter': 'kernpy/core/mhxm_spine_importer.py', 'FingSpineImporter': 'kernpy/core/fing_spine_importer.py',
+        'BasicSpineImporter': 'kernpy/core/basic_spine_importer.py',
+    }
+    recs = {}
+    for cls, rel in files.items():
+        recs[cls] = importer_record(ex, rel, cls)
+    # resolve delegation (one level)
+    for cls, r in list(recs.items()):
+        if r and r[0] == 'delegate':
+            recs[cls] = recs.get(r[1])
+            if recs[cls] is None:
+                ex.problem(f'{cls} delegates to {r[1]} which has no record')
+    # dispatch chain of createImporter
+    t = parse('kernpy/core/importer_factory.py')
+    fn = find_def(t, 'createImporter')
+    ex.fingerprints['importer_factory.createImporter'] = fingerprint(fn)
+    chain, default = [], None
+    node = fn.body[0] if fn is not None and fn.body else None
+    while isinstance(node, ast.If):
+        tst = node.test
+        ok = (isinstance(tst, ast.Compare) and isinstance(tst.left, ast.Name) and len(tst.ops) == 1 and isinstance(tst.ops[0], ast.Eq)
+              and isinstance(tst.comparators[0], ast.Constant))
+        ret = node.body[0] if node.body else None
+        if not ok or not (isinstance(ret, ast.Return) and isinstance(ret.value, ast.Call) and isinstance(ret.value.func, ast.Name)):
+            ex.problem('createImporter: unexpected branch shape'); break
+        chain.append((tst.comparators[0].value, ret.value.func.id))
+        nxt = node.orelse
+        if len(nxt) == 1 and isinstance(nxt[0], ast.If):
+            node = nxt[0]
+        else:
+            for st in nxt:
+                if isinstance(st, ast.Return) and isinstance(st.value, ast.Call) and isinstance(st.value.func, ast.Name):
+                    default = st.value.func.id
+            node = None
+    if not chain or default is None:
+        ex.problem('createImporter: dispatch chain not found')
+    # sanity against the live function
+    for h, cls in chain + [('**some-unknown-type', default)]:
+        try:
+            live = type(IF.createImporter(h)).__name__
+            if live != cls:
+                ex.problem(f'createImporter({h!r}) is {live}, AST says {cls}')
+        except NotImplementedError:
+            pass  # MensSpineImporter cannot be instantiated at all (outside every property)
+        except Exception as e:  # noqa
+            ex.problem(f'createImporter({h!r}) raised {e}')
+
+    def rec_lean(cls):
+        r = recs.get(cls)
+        if cls == 'KernSpineImporter':
+            return '.kern'
+        if cls == 'RootSpineImporter':
+            return '.root'
+        if cls == 'MensSpineImporter':
+            return '.mens'
+        if not r:
+            return '.unknownClass'
+        _, acc, neg, fexc, fany = r
+        return f'.wrap {llist([lstr(a) for a in acc])} {lbool(neg)} {lstr(fexc)} {lstr(fany)}'
+    body = []
+    body.append('def dispatch : List (Str × ImpRec) := ' + llist([f'({lstr(h)}, {rec_lean(cls)})' for h, cls in chain]))
+    body.append('def dispatchDefault : ImpRec := ' + rec_lean(default or ''))
+    # categories and token classes the kern listener can build
+    lt = parse('kernpy/core/base_antlr_spine_parser_listener.py')
+    cats = sorted({n.attr for n in ast.walk(lt) if _cat_name(n)})
+    classes = sorted({n.func.id for n in ast.walk(lt) if isinstance(n, ast.Call) and isinstance(n.func, ast.Name) and n.func.id.endswith('Token')})
+    body.append('def listenerCategoryLiterals : List Str := ' + llist([lstr(c) for c in cats]))
+    body.append('def listenerTokenClasses : List Str := ' + llist([lstr(c) for c in classes]))
+    ex.files['Importers.lean'] = wrap(body)
+    ex.fingerprints['base_antlr_spine_parser_listener'] = fingerprint(lt)
+
+
+GENERATORS.append(gen_importers)
+
 # ---- keep this block last
 if __name__ == '__main__':
     ex = run()
